@@ -545,10 +545,27 @@ func runPoolScenario(sc poolScenario) *poolResult {
 		switch f[0] {
 		case "idle":
 			nominal = map[string]time.Duration{"short": poolShort, "medium": poolMedium, "long": poolLong, "almost": poolAlmost, "gap": poolGap}[f[1]]
-		case "call", "go", "rt", "ping", "stream", "long", "lstream", "callnb", "finish", "kill", "bounce", "hookget", "hookrel":
+		case "call", "go", "rt", "ping", "stream", "long", "lstream", "callnb", "finish", "kill", "bounce", "hookget", "hookrel", "pair":
 			nominal = 3 * poolTick // syncTick: three housekeeping periods, which the model counts too
 		}
 		switch f[0] {
+		case "pair":
+			// pair A B k1 k2: two calls between the same two housekeeping passes (same stamp)
+			e.syncTick()
+			for j, addr := range []string{f[1], f[2]} {
+				k := atoi(f[3+j])
+				e.startCall(k, addr, "call", false)
+				dl := time.Now().Add(2 * time.Second)
+				for time.Now().Before(dl) {
+					e.mu.Lock()
+					d := e.calls[k].done
+					e.mu.Unlock()
+					if d {
+						break
+					}
+					time.Sleep(50 * time.Microsecond)
+				}
+			}
 		case "call", "go", "rt", "ping", "stream":
 			e.syncTick()
 			e.startCall(atoi(f[2]), f[1], f[0], false)
@@ -975,6 +992,8 @@ func poolCorpus() []poolScenario {
 	// several addresses go stale in the same housekeeping pass; then more connections than one are needed per address
 	mk("stale-together-2", 3, 3, "call A 1", "call B 2", "idle medium", "long A 3", "long A 4", "long B 5", "long B 6", "call A 7", "call B 8", "finish 3", "finish 4", "finish 5", "finish 6", "idle long")
 	mk("stale-together-3", 0, 0, "call C 1", "call A 2", "call B 3", "idle medium", "long B 4", "long B 5", "long A 6", "long A 7", "long C 8", "long C 9", "finish 4", "finish 5", "finish 6", "finish 7", "finish 8", "finish 9", "idle medium", "long A 10", "long A 11", "long A 12", "finish 10", "finish 11", "finish 12", "idle long")
+	mk("stale-in-the-same-pass", 3, 3, "pair A B 1 2", "idle medium", "long A 3", "long A 4", "long B 5", "long B 6", "call A 7", "call B 8", "finish 3", "finish 4", "finish 5", "finish 6", "idle long")
+	mk("stale-in-the-same-pass-3", 0, 0, "pair C A 1 2", "pair A B 3 4", "idle medium", "long B 5", "long B 6", "long A 7", "long A 8", "long C 9", "long C 10", "finish 5", "finish 6", "finish 7", "finish 8", "finish 9", "finish 10", "idle long")
 	mk("stale-together-limits", 2, 2, "long A 1", "long A 2", "call B 3", "finish 1", "finish 2", "idle medium", "long B 4", "long B 5", "long A 6", "long A 7", "finish 4", "finish 5", "finish 6", "finish 7", "idle long")
 	mk("stream-sees-the-dead-connection", 1, 1, "call A 1", "kill A", "stream A 2", "stream A 3", "revive A", "stream A 4", "call A 5", "idle long")
 	mk("connection-lost-under-a-call", 2, 2, "long A 1", "bounce A", "call A 2", "long A 3", "long B 4", "bounce A", "finish 4", "call A 5", "idle long")
